@@ -10,7 +10,7 @@ PROPS = {
         engines=[dict(engine="route", pkg=NETC, test="TestVerifRoute", n_quick=500, n_thorough=5000),
                  dict(engine="flood", pkg=NETC, test="TestVerifFlood", n_quick=300, n_thorough=3000),
                  dict(engine="aging", pkg=NETC, test="TestVerifAging", n_quick=100, n_thorough=1000)],
-        corr_ops={"route": ["table"], "flood": ["run"], "aging": ["reader"]},
+        corr_ops={"route": ["table"], "flood": ["run", "burst"], "aging": ["reader"]},
         facts=["rt_relax", "rt_improve", "rt_init", "rt_walk", "rt_costs_published", "route_stale_epoch", "route_stale_seq",
                "aging_stamp_after_timeout_continue", "aging_cancel_test"],
         trusted=["float64 arithmetic on costs (model uses naturals; generators use small integer costs)",
@@ -37,7 +37,7 @@ PROPS = {
     "C06": dict(
         lean_props="Receptor.Props.C06",
         engines=[dict(engine="flood", pkg=NETC, test="TestVerifFlood", n_quick=400, n_thorough=4000)],
-        corr_ops={"flood": ["run"]},
+        corr_ops={"flood": ["run", "burst"]},
         facts=["route_stale_epoch", "route_stale_seq", "route_dedup_first", "route_relay_call", "route_self_filter",
                "route_forwarder_rewrite", "route_seen_atomic", "route_expire_writes"],
         trusted=["Go map/RWMutex semantics: the seen-table test-and-set is one critical section (fact route_seen_atomic); "
@@ -86,7 +86,7 @@ PROPS = {
         lean_props="Receptor.Props.C11",
         engines=[dict(engine="proto", pkg=NETC, test="TestVerifProto", n_quick=300, n_thorough=3000, timeout_quick=1500),
                  dict(engine="flood", pkg=NETC, test="TestVerifFlood", n_quick=200, n_thorough=2000)],
-        corr_ops={"proto": ["session", "race"], "flood": ["run"]},
+        corr_ops={"proto": ["session", "race"], "flood": ["run", "burst"]},
         facts=["adm_checks", "adm_post_checks", "adm_done_exit", "adm_empty_id_guard", "adm_remove_on_all_exits", "adm_exit_selects",
                "route_self_filter"],
         trusted=["the already-connected test and the registration form one critical section under connLock (fact adm_checks): "
